@@ -3,6 +3,7 @@ package c03
 import (
 	"bytes"
 	"encoding/base64"
+	"encoding/hex"
 	"encoding/json"
 	"errors"
 	"fmt"
@@ -17,6 +18,7 @@ import (
 	"github.com/jcmturner/gokrb5/v8/keytab"
 	"github.com/jcmturner/gokrb5/v8/service"
 	"github.com/jcmturner/gokrb5/v8/spnego"
+	"github.com/jcmturner/gokrb5/v8/test/testdata"
 	"github.com/jcmturner/gokrb5/v8/types"
 
 	"verifsim/core"
@@ -173,7 +175,8 @@ func run(tapeJSON json.RawMessage, res *core.Result) {
 	simrt.SleepExact(int64(time.Hour) + 333)
 	service.GetReplayCache(skew)
 
-	minter := &world.Minter{Seed: tp.RunSeed, Kt: ktm}
+	pacSample, _ := hex.DecodeString(testdata.MarshaledPAC_AD_WIN2K_PAC)
+	minter := &world.Minter{Seed: tp.RunSeed, Kt: ktm, PACFor: world.StdPACFor(pacSample, tp.RunSeed)}
 	rng := core.NewRng(tp.RunSeed).Derive("c03")
 	replay := map[string]bool{}
 	taint := map[string]bool{}
@@ -339,6 +342,9 @@ func run(tapeJSON json.RawMessage, res *core.Result) {
 					}
 					if byHeader {
 						okID = okID || (ctxUser == strings.Join(m.TktCName, "/") && ctxDomain == m.TktCRealm)
+						// a verified PAC is sealed inside the ticket too: the user name may be the effective
+						// name the KDC put there (the captured sample PAC names "testuser1")
+						okID = okID || (m.HasPAC && m.PACValid && tp.Settings.DecodePAC && ctxUser == "testuser1" && ctxDomain == m.TktCRealm)
 					}
 					if !okID || !ctxAuthed {
 						engine.Violate(res, "wrong-identity-in-context", o)
